@@ -1502,7 +1502,8 @@ def _extract_all(repo, fam):
             "r.ri_whfast.safe_mode": 1, "r.ri_whfast.is_synchronized": 1, "r.ri_whfast.keep_unsynchronized": 0,
             "r.ri_whfast.recalculate_coordinates_but_not_synchronized_warning": 0, "r.particles": Path("r.particles"),
             "r.ri_whfast.kernel": 0, "r.ri_whfast.corrector": 0, "r.ri_whfast.corrector2": 0,
-            "r.ri_saba.safe_mode": 1, "r.ri_saba.is_synchronized": 1, "r.ri_saba.keep_unsynchronized": 0}
+            "r.ri_saba.safe_mode": 1, "r.ri_saba.is_synchronized": 1, "r.ri_saba.keep_unsynchronized": 0,
+            "r.gravity": enums["REB_GRAVITY_BASIC"], "r.gravity_ignore_terms": 0}
     D["saba"] = []
     for name, val in D["enums"]["saba"]:
         stages = call_function([saba], enums, "reb_saba_stages", [val])
